@@ -247,7 +247,8 @@ def main(argv):
     retry = {}
     for rep in reports:
         if rep["status"] == "ok" and unchanged_since_baseline(rep):
-            names = [o["name"] for o in rep["obligations"] if o["result"] != "proved"]
+            names = [o.get("uid", o["name"]) for o in rep["obligations"] if o["result"] != "proved"
+                     and match_known(load_known(), pid, {"obligation": o["name"]}) is None]
             if names:
                 retry[rep["function"]] = set(names)
     if retry:
@@ -257,10 +258,10 @@ def main(argv):
         with ctx.Pool(min(8, len(retry)), maxtasksperchild=1) as pool:
             again = pool.map(_retry_worker, [(q, pid, sorted(ns)) for q, ns in retry.items()], chunksize=1)
         for rep2 in again:
-            better = {o["name"]: o for o in rep2.get("obligations", []) if o["result"] == "proved"}
+            better = {o["uid"]: o for o in rep2.get("obligations", []) if o["result"] == "proved" and o.get("uid")}
             for rep in reports:
                 if rep["function"] == rep2["function"]:
-                    rep["obligations"] = [better.get(o["name"], o) if o["result"] != "proved" else o for o in rep["obligations"]]
+                    rep["obligations"] = [better.get(o.get("uid"), o) if o["result"] != "proved" else o for o in rep["obligations"]]
     p_obl = p_dis = 0
     by_backend = {}
     solver_time = 0.0
@@ -348,6 +349,13 @@ def main(argv):
             violations.append({"obligation": f"{r['function']}::bounded[{f['clause']}]", "kind": "bounded",
                                "detail": f.get("detail"), "witness": f.get("args"), "input_found": True})
     have_b = {b["function"] for b in bounded}
+    for o in out_of_reach:
+        si = getattr(reg.contracts.get(o["function"]), "standin", "")
+        hits = [r for r in f_results + fb_results if si and r["name"].startswith(si)]
+        if hits:
+            have_b.add(o["function"])
+            bounded.append({"function": o["function"], "standin": [r["name"] for r in hits],
+                            "cases": sum(r.get("size") or 0 for r in hits)})
     for o in out_of_reach:
         if o["function"] not in have_b:
             undecided.append(f"{o['function']} is out of reach ({o['reason'][:120]}) and has no bounded stand-in")
